@@ -51,6 +51,46 @@ pub enum QAct {
     TryInsertTypedChecksum(String),
     RemoveTypedRepo,
     RemoveTypedChecksum,
+    /// the other well-known string qualifiers: insert_typed / remove_typed by kind
+    InsertTypedOther(u8, String),
+    RemoveTypedOther(u8),
+}
+
+/// the well-known string qualifiers and the keys the PURL specification gives them
+pub const OTHER_TYPED: [&str; 6] = ["download_url", "vcs_url", "file_name", "classifier", "type", "platform"];
+
+fn insert_other(q: &mut Qualifiers, kind: u8, v: &'static str) {
+    use purl::qualifiers::well_known::{gem, maven, DownloadUrl, FileName, VcsUrl};
+    match kind {
+        0 => q.insert_typed(DownloadUrl::from(v)),
+        1 => q.insert_typed(VcsUrl::from(v)),
+        2 => q.insert_typed(FileName::from(v)),
+        3 => q.insert_typed(maven::Classifier::from(v)),
+        4 => q.insert_typed(maven::Type::from(v)),
+        _ => q.insert_typed(gem::Platform::from(v)),
+    }
+}
+fn remove_other(q: &mut Qualifiers, kind: u8) {
+    use purl::qualifiers::well_known::{gem, maven, DownloadUrl, FileName, VcsUrl};
+    match kind {
+        0 => q.remove_typed::<DownloadUrl>(),
+        1 => q.remove_typed::<VcsUrl>(),
+        2 => q.remove_typed::<FileName>(),
+        3 => q.remove_typed::<maven::Classifier>(),
+        4 => q.remove_typed::<maven::Type>(),
+        _ => q.remove_typed::<gem::Platform>(),
+    }
+}
+fn get_other(q: &Qualifiers, kind: u8) -> (Option<String>, bool) {
+    use purl::qualifiers::well_known::{gem, maven, DownloadUrl, FileName, VcsUrl};
+    match kind {
+        0 => (q.get_typed::<DownloadUrl>().map(|x| x.to_string()), q.contains_typed::<DownloadUrl>()),
+        1 => (q.get_typed::<VcsUrl>().map(|x| x.to_string()), q.contains_typed::<VcsUrl>()),
+        2 => (q.get_typed::<FileName>().map(|x| x.to_string()), q.contains_typed::<FileName>()),
+        3 => (q.get_typed::<maven::Classifier>().map(|x| x.to_string()), q.contains_typed::<maven::Classifier>()),
+        4 => (q.get_typed::<maven::Type>().map(|x| x.to_string()), q.contains_typed::<maven::Type>()),
+        _ => (q.get_typed::<gem::Platform>().map(|x| x.to_string()), q.contains_typed::<gem::Platform>()),
+    }
 }
 
 pub struct QModel {
@@ -95,6 +135,22 @@ fn pred_real(p: u8, k: &purl::qualifiers::QualifierKey, v: &str) -> bool {
 }
 
 impl QModel {
+    /// A third, small model: only the well-known string qualifiers other than repository_url, driven
+    /// through their typed accessors (plus plain removal by key in another letter case and clear).
+    pub fn new_typed_others() -> QModel {
+        let mut acts = Vec::new();
+        for kind in 0..OTHER_TYPED.len() as u8 {
+            acts.push(QAct::InsertTypedOther(kind, "x".to_owned()));
+            acts.push(QAct::InsertTypedOther(kind, "y/z?".to_owned()));
+            acts.push(QAct::RemoveTypedOther(kind));
+            acts.push(QAct::Remove(OTHER_TYPED[kind as usize].to_ascii_uppercase()));
+            acts.push(QAct::Insert(OTHER_TYPED[kind as usize].to_ascii_uppercase(), "k".to_owned()));
+        }
+        acts.push(QAct::InsertTypedOther(4, "".to_owned()));
+        acts.push(QAct::Clear);
+        QModel { name: "quals-typed-others-bfs", keys: OTHER_TYPED.iter().map(|s| s.to_string()).collect(), invalid: vec![], values: vec!["x".into()], acts, typed: true, init_from_pairs: 0 }
+    }
+
     pub fn new(tier: Tier, typed: bool) -> QModel {
         let s = |v: &[&str]| v.iter().map(|x| x.to_string()).collect::<Vec<String>>();
         let (keys, values, invalid);
@@ -611,6 +667,15 @@ impl Model for QModel {
                     },
                 }
             },
+            QAct::InsertTypedOther(kind, v) => {
+                let v: &'static str = crate::builders::intern(v);
+                insert_other(&mut q, *kind, v);
+                r.insert(OTHER_TYPED[*kind as usize].to_owned(), v.to_owned());
+            },
+            QAct::RemoveTypedOther(kind) => {
+                remove_other(&mut q, *kind);
+                r.remove(OTHER_TYPED[*kind as usize]);
+            },
             QAct::RemoveTypedRepo => {
                 q.remove_typed::<RepositoryUrl>();
                 r.remove("repository_url");
@@ -691,8 +756,29 @@ impl Model for QModel {
                 }
             }
         }
+        // QualifierKey: every view of a stored key is the lower-case key
+        for (k, _) in q.iter() {
+            let s1: &str = k.as_str();
+            let s2: &str = k;
+            let s3: &str = k.as_ref();
+            let owned: SStr = SStr::from(k);
+            let owned2: SStr = SStr::from(k.clone());
+            if s1 != s2 || s1 != s3 || owned.as_str() != s1 || owned2.as_str() != s1 || s1.bytes().any(|b| b.is_ascii_uppercase()) {
+                bad!("key-views", "views of key {:?} disagree", s1);
+            }
+            if !(*k == *s1) || !(*k == s1.to_ascii_uppercase()) || k.partial_cmp(s1) != Some(std::cmp::Ordering::Equal) {
+                bad!("key-compare", "key {:?} does not compare equal to its own spelling in either case", s1);
+            }
+        }
         if self.typed {
             acc.calls += 4;
+            for kind in 0..OTHER_TYPED.len() as u8 {
+                let want = s.refm.get(OTHER_TYPED[kind as usize]).cloned();
+                let (got, has) = get_other(q, kind);
+                if got != want || has != want.is_some() {
+                    bad!("typed-accessor", "typed accessor for {:?} gives {:?} / contains {}, reference {:?}", OTHER_TYPED[kind as usize], got, has, want);
+                }
+            }
             let repo = q.get_typed::<RepositoryUrl>().map(|r| r.to_string());
             if repo.as_deref() != s.refm.get("repository_url").map(String::as_str) {
                 bad!("get_typed", "get_typed::<RepositoryUrl>() = {:?}", repo);
